@@ -108,7 +108,6 @@ Proof. intros H. unfold aname. rewrite H. reflexivity. Qed.
 
 Section Sim.
 Variable pv : N.
-Variable sv : N.
 Variable bound : N.
 Variable u : counts.
 
@@ -313,7 +312,7 @@ Definition P_eval (n : nat) : Prop :=
   forall g k x ctx c code v c' e st r st' sc l E stL F,
     SyltSem.eval n e x st = (r, st') ->
     expression g x ctx c = Ok ((code, v), c') ->
-    frag_expr pv sv bound k sc x = true ->
+    frag_expr pv k sc x = true ->
     ucovers u code -> ctx_ok l F E c c' ->
     rel pv bound sc e st E stL ->
     interesting r ->
@@ -323,7 +322,7 @@ Definition P_eval (n : nat) : Prop :=
 Definition L_expr (g : nat) : Prop :=
   forall k x ctx c code v c' sc l,
     expression g x ctx c = Ok ((code, v), c') ->
-    frag_expr pv sv bound k sc x = true ->
+    frag_expr pv k sc x = true ->
     exists b l', cshape l code b l' c c' /\ c <= v /\ v < c'.
 
 (* a value computed by a single iis instruction at the end *)
